@@ -327,7 +327,7 @@
 		let r = p.serialize_request(&k);
 		let reached = unsafe { SIGN_REACHED };
 		if must_refuse {
-			assert!(matches!(r, Err(Error::UnsupportedInCsr)), "unsupported field must give UnsupportedInCsr");
+			assert!(matches!(r, Err(Error::UnsupportedInCsr)), "a field a CSR cannot express must give UnsupportedInCsr");
 			assert!(!reached, "nothing is signed when the request is refused");
 		} else {
 			assert!(r.is_ok());
